@@ -10,6 +10,7 @@ import (
 // H264 (C10, C15, and the H264 instances of C08/C09).
 // opcodes: 1001 disableStapA [[mtu annexb]...]   one H264Payloader, a history of calls
 //          1002 isAVC [payloads...]               one H264Packet receiver
+//          1004 isAVC [plan items...]             independent RFC 6184 encoder -> one H264Packet receiver
 
 // ---- generators -------------------------------------------------------------------------
 
@@ -279,9 +280,123 @@ func checkH264Lossless(disable, avc bool, mtu int, calls [][][]byte, c *RNG) (ca
 	return cases, "", ""
 }
 
+// ---- independent RFC 6184 encoder (decoder clause of C10) ---------------------------------
+// plan item tokens: [0 xnal] single NAL unit packet, [1 nri [xunit...]] STAP-A, [2 h [xchunk...]] FU-A
+// (unit = h followed by the chunks; one FU-A packet per chunk, S on the first, E on the last)
+
+func genRfc6184Plan(c *RNG) TList {
+	plan := TList{}
+	other := func() byte {
+		for {
+			t := 1 + c.Intn(23)
+			return byte(t) | byte(c.Intn(4))<<5
+		}
+	}
+	for k, kn := 0, 1+c.Intn(5); k < kn; k++ {
+		switch c.Intn(3) {
+		case 0:
+			n := c.Bytes(1 + c.Intn(12))
+			n[0] = other()
+			plan = append(plan, TList{TI(0), TBytes(n)})
+		case 1:
+			us := TList{}
+			for u, un := 0, 1+c.Intn(4); u < un; u++ {
+				b := c.Bytes(1 + c.Intn(8))
+				b[0] = other()
+				us = append(us, TBytes(b))
+			}
+			plan = append(plan, TList{TI(1), TI(int64(c.Intn(4)) << 5), us})
+		default:
+			cs := TList{}
+			for f, fn := 0, 2+c.Intn(4); f < fn; f++ {
+				l := c.Intn(6)
+				if c.Intn(3) == 0 {
+					l = 0 // "An FU payload MAY have any number of octets and MAY be empty"
+				}
+				cs = append(cs, TBytes(c.Bytes(l)))
+			}
+			plan = append(plan, TList{TI(2), TI(int64(other())), cs})
+		}
+	}
+	return plan
+}
+
+// rfc6184Encode is written from RFC 6184 5.6, 5.7.1 and 5.8 and shares no code with the library.
+func rfc6184Encode(plan []Tok) (payloads [][]byte, units [][]byte) {
+	for _, it := range plan {
+		l := tokList(it)
+		switch tokInt(l[0]) {
+		case 0:
+			n := tokBytes(l[1])
+			payloads = append(payloads, append([]byte{}, n...))
+			units = append(units, n)
+		case 1:
+			p := []byte{24 | byte(tokInt(l[1]))}
+			for _, u := range tokList(l[2]) {
+				b := tokBytes(u)
+				p = append(p, byte(len(b)>>8), byte(len(b)))
+				p = append(p, b...)
+				units = append(units, b)
+			}
+			payloads = append(payloads, p)
+		case 2:
+			h := byte(tokInt(l[1]))
+			cs := tokList(l[2])
+			unit := []byte{h}
+			for i, ch := range cs {
+				b := tokBytes(ch)
+				fh := h & 0x1F
+				if i == 0 {
+					fh |= 0x80
+				}
+				if i == len(cs)-1 {
+					fh |= 0x40
+				}
+				payloads = append(payloads, append([]byte{h&0x60 | 28, fh}, b...))
+				unit = append(unit, b...)
+			}
+			units = append(units, unit)
+		}
+	}
+	return payloads, units
+}
+
+func runRfc6184Plan(avc bool, plan []Tok) Outcome {
+	var o Outcome
+	payloads, units := rfc6184Encode(plan)
+	seq := runH264UnmarshalSeq(avc, payloads)
+	ps := VList{}
+	for _, p := range payloads {
+		ps = append(ps, B(p))
+	}
+	o = seq
+	o.Impl = L(ps, seq.Impl)
+	o.Nontrivial = true
+	if o.Fail != "" {
+		return o
+	}
+	// oracle: the concatenated output is exactly the units of the plan behind the receiver's prefix
+	d := &codecs.H264Packet{IsAVC: avc}
+	var got []byte
+	for i, p := range payloads {
+		out, err := d.Unmarshal(append([]byte{}, p...))
+		if err != nil {
+			o.Fail = fmt.Sprintf("packet %d of a well-formed RFC 6184 stream rejected: %v", i, err)
+			return o
+		}
+		got = append(got, out...)
+	}
+	if !bytes.Equal(got, frameAs(avc, units)) {
+		o.Fail = fmt.Sprintf("decoded stream differs from the units of the plan: got %x want %x", got, frameAs(avc, units))
+	}
+	return o
+}
+
 func init() {
 	run := func(op int, toks []Tok) Outcome {
 		switch op {
+		case 1004:
+			return runRfc6184Plan(tokInt(toks[0]) != 0, tokList(toks[1]))
 		case 1001:
 			return runH264History(tokInt(toks[0]) != 0, tokList(toks[1]))
 		case 1002:
@@ -313,7 +428,7 @@ func init() {
 	}
 	register(&Prop{
 		ID:       "C10",
-		Rule:     "well-shaped Annex-B access-unit sequences (NAL types 1-23, F=0, sizes 2 B to 4xMTU with mass on MTU-2..MTU+2 and 2xMTU, 3- and 4-byte start codes, SPS+PPS pairs before coded units, AUD/filler sprinkled in) x MTU 3-1500 x StapA on/off x AVC on/off over 1-3 calls: payloader output is fed to H264Packet and compared with the units; plus raw payloader histories and depacketizer sequences (random, mutated) for the correspondence; non-trivial = at least one FU-A train or a STAP-A",
+		Rule:     "well-shaped Annex-B access-unit sequences (NAL types 1-23, F=0, sizes 2 B to 4xMTU with mass on MTU-2..MTU+2 and 2xMTU, 3- and 4-byte start codes, SPS+PPS pairs before coded units, AUD/filler sprinkled in) x MTU 3-1500 x StapA on/off x AVC on/off over 1-3 calls: payloader output is fed to H264Packet and compared with the units; plus plans (1-5 items: single NAL unit packets, STAP-As of 1-4 units, FU-A runs of 2-5 fragments cut anywhere, a third of the fragments empty) encoded by an independent RFC 6184 encoder in Go and by Spec/Rfc6184.v and decoded by H264Packet; plus raw payloader histories and depacketizer sequences (random, mutated) for the correspondence; non-trivial = at least one FU-A train or a STAP-A",
 		Quick:    3000,
 		Thorough: 150000,
 		Gen: func(r *RNG, tier string, n int, emit func(op int, toks ...Tok)) {
@@ -342,6 +457,8 @@ func init() {
 					}
 				}
 				emit(1002, TI(b2i(avc)), ps)
+				// decoder clause: a plan for the independent RFC 6184 encoder
+				emit(1004, TI(b2i(c.Bool())), genRfc6184Plan(c.Fork(5)))
 			}
 		},
 		Run: run,
